@@ -12,6 +12,6 @@ nk = sum(1 for f in k if f["status"] == "known")
 txt = "\n%d genuine defects repaired by `fix:` commits, %d recorded as known findings.\n\n" % (nfix, nk) + "\n".join(rows) + "\n"
 p = os.path.join(ROOT, "DESIGN.md")
 s = open(p).read()
-s = re.sub(r"<!-- FINDINGS-BEGIN -->.*<!-- FINDINGS-END -->", "<!-- FINDINGS-BEGIN -->" + txt.replace("\\", "\\\\") + "<!-- FINDINGS-END -->", s, flags=re.S)
+s = re.sub(r"<!-- FINDINGS-BEGIN -->.*<!-- FINDINGS-END -->", lambda m_: "<!-- FINDINGS-BEGIN -->" + txt + "<!-- FINDINGS-END -->", s, flags=re.S)
 open(p, "w").write(s)
 print("fixed", nfix, "known", nk)
